@@ -109,7 +109,7 @@ def runGen (j : Json) : Json :=
   | .error e => Json.mkObj [("ok", .bool false), ("err", .str e.name)]
   | .ok r =>
     let files := applyWrites [] r.ops
-    Json.mkObj [("ok", .bool true), ("stubs", .arr (r.stubs.map encStub).toArray),
+    Json.mkObj [("ok", .bool true), ("log", .arr (r.log.map fun (k, i) => Json.arr #[.str k, .str i]).toArray), ("stubs", .arr (r.stubs.map encStub).toArray),
       ("outside", .arr ((sortStrings r.outside).map Json.str).toArray),
       ("ops", .arr (r.ops.map encOp).toArray),
       ("files", .arr (files.map fun (p, t) => Json.arr #[.str p, .str t]).toArray)]
